@@ -69,20 +69,39 @@ def main() -> int:
           and result["confirmed"].get("demo_with_change_rc") != 0
           and result["confirmed"].get("demo_without_change_rc") == 0)
     result["confirmed"]["all"] = bool(ok)
-    # (2) run the property's check against it
-    rc, out = sh(f"git -C {REPO} apply {patch}")
-    if rc == 0:
-        try:
-            t0 = time.time()
-            cmd = f"/venv/bin/python harness/check.py {pid} --tier {tier}"
-            crc, cout = sh(cmd, cwd=str(VERIF), timeout=7200)
-            result["check"] = {"cmd": cmd, "exit": crc, "wall_s": round(time.time() - t0, 1),
-                               "violation_lines": [l for l in cout.splitlines() if l.startswith("VIOLATION") or l.strip().startswith("signature")][:12],
-                               "detected": crc == 1}
-        finally:
-            sh(f"git -C {REPO} checkout -- .")
+    # (2) run the property's check against it: a second scratch worktree with the patch applied is
+    #     what the check imports (VERIF_REPO); /repo itself is not touched, so seeds can be run in
+    #     parallel.  (`--in-repo` applies the patch to /repo instead and undoes it afterwards.)
+    in_repo = "--in-repo" in sys.argv
+    t0 = time.time()
+    cmd = f"/venv/bin/python harness/check.py {pid} --tier {tier}"
+    if in_repo:
+        rc, out = sh(f"git -C {REPO} apply {patch}")
+        if rc == 0:
+            try:
+                crc, cout = sh(cmd, cwd=str(VERIF), timeout=7200)
+            finally:
+                sh(f"git -C {REPO} checkout -- .")
+        else:
+            crc, cout = -1, "patch does not apply to /repo: " + out[-300:]
     else:
-        result["check"] = {"error": "patch does not apply to /repo: " + out[-300:]}
+        wt2 = f"/tmp/seedrun_{os.getpid()}"
+        sh(f"git -C {REPO} worktree add --detach {wt2} HEAD -q")
+        try:
+            rc, out = sh(f"git apply {patch}", cwd=wt2)
+            if rc == 0:
+                scratch_ev = VERIF / ".cache" / "seedruns" / name
+                scratch_ev.mkdir(parents=True, exist_ok=True)
+                env2 = dict(os.environ, VERIF_REPO=wt2, VERIF_EVIDENCE=str(scratch_ev), VERIF_REPLAYS=str(scratch_ev / "replays"))
+                crc, cout = sh(cmd, cwd=str(VERIF), env=env2, timeout=7200)
+            else:
+                crc, cout = -1, "patch does not apply: " + out[-300:]
+        finally:
+            sh(f"git -C {REPO} worktree remove --force {wt2}")
+    result["check"] = {"cmd": cmd, "how": "git apply in /repo" if in_repo else "patched scratch worktree via VERIF_REPO",
+                       "exit": crc, "wall_s": round(time.time() - t0, 1),
+                       "violation_lines": [l for l in cout.splitlines() if l.startswith("VIOLATION") or l.strip().startswith("signature")][:12],
+                       "detected": crc == 1}
     (dest / "meta.json").write_text(json.dumps(result, indent=1))
     print(json.dumps(result, indent=1))
     return 0
